@@ -11,7 +11,7 @@ class _RL(dict):
 UNIT_RLIMIT = _RL({"div_small": 80, "mul_redc": 80})      # unit -> --rlimit (Verus default is 10; 5x head-room over the measured maximum)
 UNIT_TIMEOUT = {"knuth": 1500, "addmul": 900, "mul_redc": 1200}     # unit -> seconds
 UNIT_EXPECT = {       # unit -> minimum number of verified functions on the unchanged tree (vacuity guard)
-    "core": 31, "add": 29, "kernels": 79, "addmul": 71, "addmul_n": 73, "mul": 51, "divd": 45, "div_small": 235, "knuth": 145, "mul_redc": 118, "basics": 22, "pow": 38, "divw": 54, "modular": 51, "spigot": 44, "gcd": 21, "forward": 57, "invring": 36, "bitlen": 70, "shifts": 121, "recip_table": 2, "gcdext": 64, "gcdw": 33,
+    "core": 31, "add": 29, "kernels": 79, "addmul": 71, "addmul_n": 73, "mul": 51, "divd": 45, "div_small": 235, "knuth": 145, "mul_redc": 124, "basics": 22, "pow": 38, "divw": 54, "modular": 63, "spigot": 44, "gcd": 21, "forward": 57, "invring": 36, "bitlen": 70, "shifts": 121, "recip_table": 2, "gcdext": 64, "gcdw": 33,
 }
 
 COMMON_TRUST = [
@@ -237,17 +237,18 @@ PROPS = {
     "C11": dict(
         level="proof",
         level_text="Verus proves mul_redc<N> (CIOS Montgomery multiplication) AND square_redc<N> (Montgomery squaring with doubled cross terms) for ALL N on the extracted real code: for inv*m[0] = -1 mod 2^64 "
-                   "and a, b < m the result r satisfies r < m and 2^(64N) * r = a*b + m*mu (resp. a*a + m*mu) for some integer mu, i.e. r = a*b*2^(-64N) mod m fully reduced; also carrying_mul_add and carrying_double_mul_add",
-        level_note="ASSUMED: reduce1_carry/sub (zip over arrays by value is outside the Verus subset; contract discharged per N in 1..4 by Kani c11), Ordering::eq, u128::overflowing_add; "
-                   "NOT decided: the Uint::mul_redc/square_redc wrappers (array pass-through)",
-        technique="deductive contracts (Verus, all N) + Kani per N for the final conditional subtraction",
-        units=["add", "kernels", "mul_redc"],
+                   "and a, b < m the result r satisfies r < m and 2^(64N) * r = a*b + m*mu (resp. a*a + m*mu) for some integer mu, i.e. r = a*b*2^(-64N) mod m fully reduced; the helpers carrying_mul_add, "
+                   "carrying_double_mul_add, sub and reduce1_carry; and the Uint::mul_redc / Uint::square_redc wrappers (BITS = 0 case, from_limbs never panics, result < modulus)",
+        level_note="declared rewrites (reported as normalisations on every run): `for b in b` and the zip() loop of `sub` become index loops with the same element order (iteration over arrays by value / zip is outside the Verus subset); "
+                   "ASSUMED: Ordering::eq, u128::overflowing_add specs; the precondition inv*m[0] = -1 mod 2^64 is the documented caller obligation",
+        technique="deductive contracts (Verus, all N / all widths) + Kani per N for the final conditional subtraction as counterexample source",
+        units=["core", "basics", "add", "kernels", "mul_redc", "modular"],
         kani=dict(features=None, quick=hs("c11"), thorough=hs("c11"), bounds="reduce1_carry: N in 1..4, all inputs"),
         explanation="mul_redc: outer invariant B^k * Acc = a * lv(b,k) + m*mu and Acc < 2m; inner row invariant; threshold argument for the dropped carry. "
                     "square_redc: outer invariant B^i * Acc = P_i*(2a - P_i) + m*mu with P_i = lv(a,i), mu < B^i, hence Acc < 2a + m < 3m (carry_outer <= 2) and Acc < 2m at the end; "
                     "two inner invariants (row of doubled products with a two-word carry, reduction row); the 0x3fff.. threshold branch is proved not to drop a carry",
         trusted=COMMON_TRUST,
-        not_decided=["Uint::mul_redc / Uint::square_redc wrappers"],
+        not_decided=[],
     ),
     "C18": dict(
         level="other",
